@@ -100,6 +100,8 @@ def stripSign (r : Bytes) : Bytes := if isNegRow r || isPosRow r then r.set 0 48
 
 /-- `(digits * 10**power_array).sum(axis=-1) * signs`, all int64. `none` = EncodingError. -/
 def strToInt (rows : List Bytes) : Option (List Int) :=
+  -- `only_sign = (is_negative | is_positive) & (lengths == 1)` raises EncodingError
+  if rows.any (fun r => (isNegRow r || isPosRow r) && r.length == 1) then none else
   match omap (fun r => omap digitVal (stripSign r)) rows with
   | none => none
   | some drows =>
@@ -161,11 +163,15 @@ def findByte (b : Nat) (r : Bytes) : Option Nat :=
   let i := r.idxOf b
   if i < r.length then some i else none
 
-/-- `_decimal_str_to_float` for one row, exactly: sign → `'0'`, dot → `'0'`, digit-encode,
-`Σ digit·10^power`, divided by `10^(digits after the dot)` -/
+/-- `_decimal_str_to_float` for one row, exactly: more than one dot or no digit at all raises
+EncodingError; sign (`'-'` or `'+'`) → `'0'`, dot → `'0'`, digit-encode, `Σ digit·10^power`,
+divided by `10^(digits after the dot)` -/
 def decimalRow (row : Bytes) : Option Dec :=
   let neg := isNegRow row
-  let r1 := if neg then row.set 0 48 else row
+  let pos := isPosRow row
+  let nDots := row.count 46
+  if nDots > 1 ∨ row.length - nDots - (if neg then 1 else 0) - (if pos then 1 else 0) < 1 then none else
+  let r1 := if neg || pos then row.set 0 48 else row
   let dot := findByte 46 r1
   let r2 := match dot with
     | some c => r1.set c 48
@@ -244,9 +250,10 @@ def specMantissa (s : Bytes) : Option Dec :=
 def specSigned (s : Bytes) : Option Dec :=
   match s with
   | 45 :: r => (specMantissa r).map (fun d => ⟨-d.m, d.e⟩)
+  | 43 :: r => specMantissa r
   | _ => specMantissa s
 
-/-- decimal or lower-case scientific float text: `[-]I[.F][e[±]X]` -/
+/-- decimal or lower-case scientific float text: `[±]I[.F][e[±]X]` -/
 def specFloat (s : Bytes) : Option Dec :=
   match findByte 101 s with
   | none => specSigned s
